@@ -99,9 +99,24 @@ fn eval(spec: &'static Spec, syms: &[Sym], p: &[usize], s: &[usize], cycles: u32
             }
         }
         let r0 = rig.board.borrow().chip().resets;
+        rig.board.borrow_mut().chip_mut().mark();
         let o = rig.apply(&Op::new(K::WakeUp));
         if !o.is_ok() {
             return Err(format!("wake_up -> {}", o.short()));
+        }
+        // a plane that wake_up itself rewrites as a whole (initialisation fill) must come out as construction
+        // leaves it - compared with a freshly constructed driver, not with another run of the same wake_up
+        {
+            let b = rig.board.borrow();
+            let fresh = Rig::simple(spec);
+            let fb = fresh.board.borrow();
+            for (pi, pl) in b.chip().planes.iter().enumerate() {
+                let whole = pl.pattern_fills > 0 || (pl.writes > 0 && pl.wc.iter().all(|w| *w > 0));
+                if whole && pl.data != fb.chip().planes[pi].data {
+                    let i = pl.data.iter().zip(fb.chip().planes[pi].data.iter()).position(|(a, c)| a != c).unwrap_or(0);
+                    out.push(("wake_up".into(), "post-wake-memory-differs".into(), vec![format!("plane={}", pi), "init-fill".into()], format!("wake_up rewrites plane {} as a whole and leaves {:02X} at byte {}, construction leaves {:02X}", pi, pl.data[i], i, fb.chip().planes[pi].data[i])));
+                }
+            }
         }
         let b = rig.board.borrow();
         if b.chip().resets == r0 {
